@@ -20,7 +20,7 @@ from ..sym import Sym, lift as zl
 from .c10 import compare
 
 PROP = 'C11'
-CLASSES = ['simple_contract', 'contract_dicts', 'contract_dtindex', 'contract_nparrays', 'storage', 'transport', 'ext_transport', 'multicommodity',
+CLASSES = ['simple_contract', 'contract_dicts', 'contract_dtindex', 'contract_nparrays', 'contract_aware_object_arrays', 'contract_aware_lists', 'storage', 'transport', 'ext_transport', 'multicommodity',
            'chp', 'chp_minload', 'chp_no_heat', 'plant', 'orderbook', 'scaled', 'structured', 'linked']
 GRIDS = ['naive', 'cet']
 EXTRA_SHIMS = ['serialization.json = vf.jsonstub (tree walker; validated against the real json module on concrete objects every run)']
@@ -33,7 +33,7 @@ def cases(tier, seed):
     out = []
     for cl in CLASSES:
         for after in (False, True):
-            for g in (['naive'] if cl == 'orderbook' else (GRIDS if tier == 'thorough' or cl in ('contract_dicts',) else ['naive'])):
+            for g in (['naive'] if cl == 'orderbook' else (GRIDS if tier == 'thorough' or cl in ('contract_dicts',) else (['cet'] if cl.startswith('contract_aware') else ['naive']))):
                 out.append(('%s_%s_%s' % (cl, 'after_setup' if after else 'fresh', g), dict(kind='asset', cls=cl, after=after, grid=g)))
     for g in ('naive', 'cet', 'cet_dst_repeated_hour', 'us_eastern', 'day_unit', 'quarter_hours_minute_unit_cet', 'seconds_cet'):
         if tier != 'thorough' and g == 'us_eastern':
@@ -42,6 +42,9 @@ def cases(tier, seed):
     # the run_from_json entry point with a grid other than the one saved with the portfolio
     out.append(('run_from_json_other_grid_cet', dict(kind='runjson', grid='naive', grid_run='cet')))
     out.append(('run_from_json_other_grid_day_unit', dict(kind='runjson', grid='cet', grid_run='day_unit')))
+    # saving to / loading from FILES: after any sequence of saves and loads (same file addressed by different spellings of its path) a load
+    # returns what was saved last -- bounded histories, decided on the real file system in the pristine interpreter
+    out.append(('file_histories', dict(kind='files', length=5 if tier == 'thorough' else 4)))
     out.append(('stub_validation', dict(kind='stubcheck')))
     return out
 
@@ -96,6 +99,14 @@ def mk_object(D, cls):
         return eao.assets.Contract(name='a', nodes=nA, price='p', min_cap='capmin',
                                    max_cap={'start': np.array([np.datetime64(h(0)), np.datetime64(h(2))]), 'end': np.array([np.datetime64(h(2)), np.datetime64(h(9))]),
                                             'values': vals})
+    if cls in ('contract_aware_object_arrays', 'contract_aware_lists'):
+        # zone-aware dates (CET wall clock of the test grids), as numpy OBJECT arrays (date_range(...).to_numpy()) / as lists of Timestamps
+        aw = lambda k: pd.Timestamp(h(k)).tz_localize('CET')
+        arr = (lambda lst: np.array(lst, dtype=object)) if cls == 'contract_aware_object_arrays' else (lambda lst: list(lst))
+        vals = np.empty(2, dtype=object); vals[0] = D('max0', lo=0); vals[1] = D('max1', lo=0)
+        return eao.assets.Contract(name='a', nodes=nA, price='p', min_cap=D('min', hi=0),
+                                   max_cap={'start': arr([aw(0), aw(2)]), 'end': arr([aw(2), aw(9)]), 'values': vals},
+                                   max_take={'start': arr([aw(1)]), 'end': arr([aw(3)]), 'values': [D('maxtake', lo=0)]})
     if cls == 'storage':
         return shapes.mk_storage(D, 'a', [nA, nB], eff=0.75, wacc=D('wacc', lo=0), block_size='2h')
     if cls == 'transport':
@@ -276,6 +287,11 @@ def run_case(case_id, tier, seed, kind, **kw):
     install_stub()
     if kind == 'stubcheck':
         return run_stubcheck(rec, seed)
+    if kind == 'files':
+        rec.pchecks.append(dict(extra=dict(seed=seed, length=kw['length'])))
+        rec.twins_ok += 1
+        rec.vacuity_ok += 1
+        return rec.result()
 
     def build(D):
         if kind == 'asset':
@@ -360,9 +376,63 @@ def run_stubcheck(rec, seed):
     return rec.result()
 
 
+def file_histories(length):
+    """all sequences over {save A / save B / load} x {relative, ./relative, absolute path} up to `length`, each ending in a load"""
+    import itertools, os, tempfile, shutil, json as real_json
+    eao = lift.import_eao()
+    ser = eao.serialization
+    ser.json = real_json
+    D = lift.Domain(theta={})
+
+    def portfolio(size):
+        nA = eao.assets.Node('A')
+        return eao.portfolio.Portfolio([eao.assets.Storage('sto', nodes=nA, size=size, cap_in=1., cap_out=1.),
+                                        eao.assets.SimpleContract(name='mk', nodes=nA, price='p', min_cap=-1., max_cap=1.)])
+    objs = {'A': portfolio(10.), 'B': portfolio(40.)}
+    texts = {k: ser.to_json(v) for k, v in objs.items()}
+    ops = [('save', o, sp) for o in 'AB' for sp in range(3)] + [('load', None, sp) for sp in range(3)]
+    obligations, violations = [], []
+    work = tempfile.mkdtemp(prefix='c11_files_')
+    cwd = os.getcwd()
+    n = 0
+    try:
+        os.chdir(work)
+        spell = lambda sp, k: ['pf%d.json' % k, './pf%d.json' % k, os.path.join(work, 'pf%d.json' % k)][sp]
+        for L in range(2, length + 1):
+            for hist in itertools.product(ops, repeat=L):
+                if hist[-1][0] != 'load' or hist[0][0] != 'save':
+                    continue
+                n += 1
+                fn = 'pf%d.json' % n
+                last = None
+                bad = None
+                for step, (op, o, sp) in enumerate(hist):
+                    path = spell(sp, n)
+                    if op == 'save':
+                        ser.to_json(objs[o], path)
+                        last = o
+                    else:
+                        got = ser.to_json(ser.load_from_json(file_name=path))
+                        if got != texts[last]:
+                            bad = 'step %d: load via %r returns another object than the one saved last (%s)' % (step, ['relative', './relative', 'absolute'][sp], last)
+                            break
+                os.remove(fn)
+                if bad and len(violations) < 3:
+                    nm = 'files/' + '-'.join('%s%s%d' % (op[0], o or '', sp) for op, o, sp in hist)
+                    obligations.append(dict(name=nm, verdict='sat', secs=0, form='L0'))
+                    violations.append(dict(name=nm, text='history %s: %s' % ([(op, o, ['rel', './rel', 'abs'][sp]) for op, o, sp in hist], bad), env={}, info=dict(kind='files')))
+    finally:
+        os.chdir(cwd)
+        shutil.rmtree(work, ignore_errors=True)
+    obligations.append(dict(name='files/histories_%d' % n, verdict='unsat' if not violations else 'sat', secs=0, form='L0'))
+    return dict(obligations=obligations, violations=violations, solver_s=0.0, samples=[dict(case='file_histories', histories=n, max_length=length)])
+
+
 def observe(case, kwargs, env, rq):
     kw = dict(kwargs)
     kind = kw.pop('kind')
+    if kind == 'files':
+        return file_histories(rq.get('extra', {}).get('length', kw.get('length', 3)))
     eao = lift.import_eao()
     import json as real_json
     if kind == 'stubcheck':
